@@ -10,6 +10,7 @@ package main
 
 import (
 	"bufio"
+	"bytes"
 	"encoding/json"
 	"fmt"
 	"os"
@@ -31,6 +32,8 @@ type fixture struct {
 	pop                hash.Hasher // package-level PoP hasher
 	sk1, sk2           crypto.PrivateKey
 	pk1, pk2           crypto.PublicKey
+	pk1j               crypto.PublicKey // pk1 held as a non-normalised (Jacobian) point
+	msgFrame, sigFrame []byte           // the buffers all messages / signatures are sub-slices of
 	m1, m2             []byte
 	s1, s2, s2m2, pop1 crypto.Signature
 	agg1, agg2         crypto.Signature
@@ -103,16 +106,25 @@ func (r *recipe) fresh() *fixture {
 	f.sk2.PublicKey()
 	f.pk1 = must(crypto.DecodePublicKey(crypto.BLSBLS12381, r.pk1b))
 	f.pk2 = must(crypto.DecodePublicKey(crypto.BLSBLS12381, r.pk2b))
-	f.m1, f.m2 = cp(r.m1), cp(r.m2)
-	f.s1, f.s2, f.s2m2, f.pop1 = cp(r.s1), cp(r.s2), cp(r.s2m2), cp(r.pop1)
-	f.agg1, f.agg2 = cp(r.agg1), cp(r.agg2)
+	// messages and signatures are ADJACENT sub-slices of two frames (like records of one network
+	// frame): each slice has spare capacity that belongs to its neighbour, and a guard at the end
+	guard := bytes.Repeat([]byte{0xA5}, 32)
+	f.msgFrame = append(append(append([]byte{}, r.m1...), r.m2...), guard...)
+	f.m1, f.m2 = f.msgFrame[:len(r.m1)], f.msgFrame[len(r.m1):len(r.m1)+len(r.m2)]
+	var sigs [][]byte
+	f.sigFrame, sigs = frameOf(guard, r.s1, r.s2, r.s2m2, r.pop1, r.agg1, r.agg2, r.sigP, r.sigS)
+	f.s1, f.s2, f.s2m2, f.pop1 = sigs[0], sigs[1], sigs[2], sigs[3]
+	f.agg1, f.agg2 = sigs[4], sigs[5]
+	// the same key as pk1 in a different internal representation (RemoveBLSPublicKeys leaves a
+	// non-normalised projective point)
+	f.pk1j = must(crypto.RemoveBLSPublicKeys(must(crypto.AggregateBLSPublicKeys([]crypto.PublicKey{f.pk1, f.pk2})), []crypto.PublicKey{f.pk2}))
 	f.ep = must(crypto.GeneratePrivateKey(crypto.ECDSAP256, r.seedP))
 	f.es = must(crypto.GeneratePrivateKey(crypto.ECDSASecp256k1, r.seedS))
 	f.ep.PublicKey()
 	f.es.PublicKey()
 	f.epk = must(crypto.DecodePublicKey(crypto.ECDSAP256, r.epkb))
 	f.esk = must(crypto.DecodePublicKey(crypto.ECDSASecp256k1, r.eskb))
-	f.sigP, f.sigS = cp(r.sigP), cp(r.sigS)
+	f.sigP, f.sigS = sigs[6], sigs[7]
 	add := func(n string, v any) { f.names = append(f.names, n); f.shared = append(f.shared, v) }
 	add("kmac-hasher", f.H)
 	add("pop-hasher", f.pop)
@@ -124,15 +136,30 @@ func (r *recipe) fresh() *fixture {
 	add("ecdsa-secp-sk", f.es)
 	add("ecdsa-p256-pk", f.epk)
 	add("ecdsa-secp-pk", f.esk)
-	add("m1", f.m1)
-	add("m2", f.m2)
-	for i, s := range []crypto.Signature{f.s1, f.s2, f.s2m2, f.pop1, f.agg1, f.agg2, f.sigP, f.sigS} {
-		add(fmt.Sprintf("sig%d", i), []byte(s))
-	}
+	add("bls-pk1-jacobian", f.pk1j)
+	add("message-frame(m1|m2|guard)", f.msgFrame)
+	add("signature-frame(8 signatures|guard)", f.sigFrame)
 	return f
 }
 
 func newFixture(seed int64) *fixture { return newRecipe(seed).fresh() }
+
+// frameOf lays the given byte strings out back to back in one buffer (followed by a guard) and
+// returns the buffer and the sub-slices.
+func frameOf(guard []byte, parts ...[]byte) ([]byte, [][]byte) {
+	var frame []byte
+	for _, p := range parts {
+		frame = append(frame, p...)
+	}
+	frame = append(frame, guard...)
+	out := make([][]byte, len(parts))
+	off := 0
+	for i, p := range parts {
+		out[i] = frame[off : off+len(p)]
+		off += len(p)
+	}
+	return frame, out
+}
 
 // snapshot: raw-memory deep snapshot of all shared objects (see space.Snap)
 func (f *fixture) snapshot() *space.Snap { return space.NewSnap(f.shared...) }
@@ -181,6 +208,8 @@ var ops = []opDef{
 	{"ECDSA-secp256k1.Verify(sig,m1,own SHA2)", func(f *fixture) string { return vb(f.esk.Verify(f.sigS, f.m1, hash.NewSHA2_256())) }},
 	{"BLSGeneratePOP(sk1)", func(f *fixture) string { s, err := crypto.BLSGeneratePOP(f.sk1); return fmt.Sprintf("%x,%v", []byte(s), err) }},
 	{"BLS.Verify(pk2,s2m2,m2,H)", func(f *fixture) string { return vb(f.pk2.Verify(f.s2m2, f.m2, f.H)) }},
+	{"BLS.Verify(pk1[jacobian],s1,m1,H)", func(f *fixture) string { return vb(f.pk1j.Verify(f.s1, f.m1, f.H)) }},
+	{"SPOCKVerify(pk1[jacobian],s1,pk2,s2)", func(f *fixture) string { return vb(crypto.SPOCKVerify(f.pk1j, f.s1, f.pk2, f.s2)) }},
 	{"AggregateBLSSignatures([s1,s2])", func(f *fixture) string {
 		s, err := crypto.AggregateBLSSignatures([]crypto.Signature{f.s1, f.s2})
 		return fmt.Sprintf("%x,%v", []byte(s), err)
@@ -569,7 +598,7 @@ func main() {
 	run.Set("states", run.Get("executions"))
 	run.Set("preemption_bound", map[string]int{"two_threads": b2, "three_threads": b3})
 	run.Set("max_schedules_per_program", map[string]int{"two_threads": m2, "three_threads": m3})
-	run.Set("rule", "program = 2 threads (thorough also 3 with a ComputeHash) running one operation each from the 17-operation alphabet (KMAC ComputeHash x2 on ONE shared hasher, BLS Sign/Verify/VerifyPOP/GeneratePOP/SPOCKVerify/aggregate/many-message/batch verification sharing keys, that hasher and the package-level PoP hasher, ECDSA Sign/Verify on both curves with per-thread hashers): all unordered pairs; every execution starts from FRESH shared objects (new hasher, public keys decoded from bytes and never used before), so first use / lazy initialisation is inside the explored schedules; for each program ALL schedules within the preemption bound over statement-level scheduling points in hash/kmac.go, bls.go, bls_multisig.go, spock.go, ecdsa.go; monitors: results equal the solo results, and after EVERY scheduling point a deep reflective snapshot of all 20 shared objects/buffers equals the initial one. executions = complete schedules; distinct_nontrivial = programs.")
+	run.Set("rule", "program = 2 threads (thorough also 3 with a ComputeHash) running one operation each from the 19-operation alphabet (KMAC ComputeHash x2 on ONE shared hasher, BLS Sign/Verify/VerifyPOP/GeneratePOP/SPOCKVerify/aggregate/many-message/batch verification sharing keys, that hasher and the package-level PoP hasher, ECDSA Sign/Verify on both curves with per-thread hashers): all unordered pairs; every execution starts from FRESH shared objects (new hasher, public keys decoded from bytes and never used before), so first use / lazy initialisation is inside the explored schedules; for each program ALL schedules within the preemption bound over statement-level scheduling points in hash/kmac.go, bls.go, bls_multisig.go, spock.go, ecdsa.go; monitors: results equal the solo results, and after EVERY scheduling point a deep reflective snapshot of all shared objects and of the two frames that hold every message and signature (sub-slices with spare capacity, guard bytes) equals the initial one. executions = complete schedules; distinct_nontrivial = programs.")
 	run.Assume("private keys have their public key computed before the threads start (lazy public-key caching of private keys is not part of the listed operations)", "interleavings at statement granularity of the instrumented Go files, sequentially consistent; calls into x/crypto, the standard library and C are atomic steps (data races inside them are invisible to this technique)", "ECDSA Sign is randomised: its output is verified, not compared")
 	run.Finish()
 }
